@@ -1,5 +1,6 @@
 """C13 — search rejection depends only on configuration (DESIGN.md §5 C13)."""
 import re
+from rules.agree import r20_1
 
 from acverif.mir import short, tstr, subterms
 from acverif.rl import (is_call, peel, peel_all, is_var, self_field, is_agg, try_gates, result_gates, expand_vars, bool_gates, reachable_without,
@@ -77,6 +78,27 @@ def r13_1(cx):
                       if ok else
                       ('delegate call %s is reachable without passing enforce_anchored_consistency(self.start_kind, <anchoring of the input passed on>)?' % tstr(ct, 200)),
                       line_of(b, blk))
+    # and no successful result leaves a gated method before the gate: a fast path in front of the check makes rejection depend
+    # on the input
+    for b in ac_methods(cx):
+        gates = result_gates(b, lambda x: is_call(x[2][0] if is_call(x, r'core::result::Result::map_err$') else x, r'ahocorasick::enforce_anchored_consistency$'))
+        if not gates:
+            continue
+        cut = [e for g in gates for e in g[2]]
+        oks = [bi for bi, si, pl, st0 in b.stores() if si != 'term' and pl['l'] == 0 and not pl['pr'] and is_agg(b.rvalue_term(st0['r'], 0, bi), r'Result$', 'Ok')]
+        # delegate results are returned as they are: their return blocks are those reached from the delegate call
+        deleg = [blk for blk, t in b.calls() if is_delegate(t)]
+        early = [x for x in oks if reachable_without(b, [x], cut)]
+        rets = b.return_blocks()
+        okall = not early and all(not reachable_without(b, [r0], cut) or any(g[0] not in b.reach(0, cut_blocks=[]) for g in gates) for r0 in rets) if False else not early
+        # any return reachable without passing a gate's Ok edge must be the gate's own error return
+        for r0 in rets:
+            if reachable_without(b, [r0], cut):
+                # allowed only via the error edges of the gates
+                err_edges = [e for g in gates for e in g[3]]
+                if reachable_without(b, [r0], cut + err_edges):
+                    okall = False
+        cx.report('R13.1', b, 'no-early-return', okall, 'no result is returned before enforce_anchored_consistency has passed (other than its own error)' if okall else 'a result can be returned without the anchoring check having run: acceptance depends on the input')
     cx.floor('R13.1', 'gated delegate calls in AhoCorasick methods', gated, 11 if cx.config in ('default', 'std', 'logging') else 8)
 
 
@@ -518,7 +540,7 @@ def r13_7(cx):
     cx.floor('R13.7', 'MatchError construction sites outside util/error.rs', n, 9 if cx.config in ('default', 'std', 'logging') else 7)
 
 
-RULES = [('R13.1', r13_1), ('R13.2', r13_2), ('R13.3', r13_3), ('R13.4', r13_4), ('R13.5', r13_5), ('R13.6', r13_6), ('R13.7', r13_7)]
+RULES = [('R20.1', r20_1), ('R13.1', r13_1), ('R13.2', r13_2), ('R13.3', r13_3), ('R13.4', r13_4), ('R13.5', r13_5), ('R13.6', r13_6), ('R13.7', r13_7)]
 THOROUGH_CONFIGS = ['default', 'std', 'perf', 'nodefault', 'logging']
 
 CLAIM = """Static decision of the structural clauses R13.1-R13.7 on the MIR of /repo: every delegation from AhoCorasick into the
